@@ -407,7 +407,7 @@ CONSTRUCTS = [
 CONTEXTS = [
     ('own line', '#%s\n'), ('text line', 't #%s u\n'), ('list item', '- #%s\n'), ('list item with text', '- t #%s\n  u\n'), ('content block', '#[t #%s]\n'), ('strong', '*#%s*\n'), ('heading', '= H #%s\n'),
     ('term', '/ T: #%s\n'), ('equation', '$ #%s $\n'), ('equation on a text line', 't $x + #%s$ u\n'), ('code block', '#{\n  %s\n}\n'), ('argument', '#g(%s)\n'), ('content argument', '#g[#%s]\n'),
-    ('let value', '#let w = %s\n'), ('closure body', '#(q => %s)\n'),
+    ('let value', '#let w = %s\n'), ('closure body', '#(q => %s)\n'), ('table cell', '#table(columns: 2, %s, [z])\n'), ('dict value', '#(k: %s)\n'), ('array item', '#(%s, 1)\n'),
 ]
 
 
@@ -437,6 +437,8 @@ def families(S, comments=True, seed=0, limit=None):
             for cname, tpl in CONTEXTS:
                 if not code and '#%s' not in tpl:
                     continue
+                if cname in ('table cell', 'dict value', 'array item') and spelling.startswith(('import', 'include', 'let ', 'set ', 'show ')):
+                    continue            # statements are not written as items of a list (an import there loses its parentheses: observed, see DESIGN)
                 body = spelling
                 t = tpl % body if code else tpl.replace('#%s', '%s') % body
                 add(t)
@@ -501,6 +503,7 @@ BLOCK_DOCS = [
     '#if a { b } else [ c ]\n', '#show: it => [ #it ]\n', '#a.b[ c ].d\n', '= H #[ a ]\n', '- a #[ b\n  c ]\n', '#f(x => [ y ])\n', '#(a: [ b ], c: { d })\n',
 ]
 EVAL_DOCS = [
+    '#table(columns: 1, $a\nb$)\n', '#table(columns: 2, $a +\n b$, [c])\n', '#grid(columns: 2, [$ a\n b $], $x$)\n', '#table(columns: 2, [a\nb], [c  d])\n', '#f($a\nb$)\n', '#($a\nb$, 1)\n', '#(k: $a\nb$)\n', '#let m = $a\nb$\n',
     # display / inline equations on lines with prose, with comments at their edges
     'x $ a // c\n$\n', 'text $ // c\n a + b $ more\n', '- a $ b // c\n$\n', '*s* $ a // c\n $\n', 'x $a // c\n$\n', 'x $ a /* c */ $ y\n', 'x $/* c */ a$ y\n', 'x $ a $ y\n', 'x $a$ y\n',
     '$ a // c\n$\n', '$ // c\n a $\n', '#f($ a // c\n$)\n', 'x #[$ a // c\n$] y\n', '$ a $ // c\n', 'x $ a\n b $ y\n', '= H $ a $\n', '/ T: $ a // c\n $\n',
